@@ -148,7 +148,21 @@ func specs[T num]() []spec[T] {
 		}
 		return out
 	}
-	par := func(c Case) T { return conv[T](c.K2 + 1) }
+	// the scalar parameter of the helpers that take one (start of Count, fill of Shift, operand of
+	// IncrementBy / MultiplyBy ...): whole for the integer types, and for the float types a
+	// non-dyadic fraction (0.1, 0.3 ...) in half of the cases - a rewrite that is only exact on
+	// whole numbers shows there
+	par := func(c Case) T {
+		v := conv[T](c.K2 + 1)
+		var z T
+		switch any(z).(type) {
+		case float64, float32:
+			if c.K2%2 == 1 {
+				v = v / conv[T](10)
+			}
+		}
+		return v
+	}
 	ss := []spec[T]{
 		{name: "Map", nin: 1,
 			build: func(c Case, in []<-chan T) []<-chan T { return one(helper.Map(in[0], func(x T) T { return 2*x + 1 })) },
